@@ -185,6 +185,11 @@ def main():
                 lib = os.path.join(os.environ.get('VERIF_REPO', '/repo'), 'metric_learn')
                 in_lib = [f for f in tb if f.filename.startswith(lib)]
                 if not in_lib:
+                    if R.violations:
+                        # the harness itself stumbled (typically over a non-finite value the library returned) AFTER it had
+                        # recorded violations on the implementation: those stand and are reported; the rest of the pass is lost
+                        R.extra['harness_exception_after_violations'] = traceback.format_exc()[-1500:]
+                        break
                     raise
                 where = in_lib[-1]
                 R.violation(f'library-raises/{type(e).__name__}/{os.path.basename(where.filename)}:{where.name}',
